@@ -13,6 +13,7 @@
 import VotelibProofs.Lemmas.Persist
 import VotelibProofs.Lemmas.Blt
 import VotelibProofs.Lemmas.StvFile
+import VotelibProofs.Lemmas.StvSys
 namespace VL.C19
 open VL VL.Persist
 
@@ -266,39 +267,40 @@ theorem stv_nicks_nonempty (initials : List String) : ∀ s ∈ candidateNicks i
     notation): `dump_lines` writes a text that `load_lines` reads back to a system with the same title, seat count,
     quota, mandatory flag and tie-break setting, the same candidates (names, withdrawn flags, order) and the same
     ballots with their weights. -/
-theorem stv_roundtrip (sd : SysDoc) (hs : wfSys sd = true) (d : Doc Weight) (h : wfStv d = true) (bl : List Blt.Line) :
+theorem stv_roundtrip (sd : SysDoc) (hs : wfSys sd = true) (d : Doc Weight) (h : wfStv d = true) (cls : String → OItem)
+    (bl : List Blt.Line) :
     ∃ hv, dumpStv sd.toSys sd.seatsArg true d = .ok hv ∧
-      loadStv hv.1 hv.2 bl = .ok (eraseDoc d, d.cands.map (fun c => (c.1, c.2.1)), sd.summary) :=
-  load_dump sd hs d h bl
+      loadStv cls hv.1 hv.2 bl = .ok (eraseDoc d, d.cands.map (fun c => (c.1, c.2.1)), sd.summary) :=
+  load_dump sd hs d h cls bl
 
 /-- **Round trip in BLT mode** (`dumps` without a system: `method=blt`, `ballots=blt`, then BLT content).  For every
     election the BLT round trip holds for (`blt_roundtrip`), the STV writer produces a file the STV reader reads back to
     the same candidates and ballots, the seat count as FixedSeatCount and an UnknownEvaluator system without title. -/
-theorem stv_blt_mode_roundtrip (d : Blt.Doc Blt.Weight) (h : Blt.WFdoc d = true) (vs : List VLine) :
+theorem stv_blt_mode_roundtrip (d : Blt.Doc Blt.Weight) (h : Blt.WFdoc d = true) (cls : String → OItem) (vs : List VLine) :
     ∃ hv, dumpStvBlt d = .ok hv ∧
-      loadStv hv.1 vs hv.2 = .ok ({ cands := d.cands.map (fun c => (c.1, c.2, "")),
-                                    ballots := d.ballots.map (fun b => (b.1, b.2.val)) }, d.cands, bltSummary d.nSeats) :=
-  load_dump_blt d h vs
+      loadStv cls hv.1 vs hv.2 = .ok ({ cands := d.cands.map (fun c => (c.1, c.2, "")),
+                                        ballots := d.ballots.map (fun b => (b.1, b.2.val)) }, d.cands, bltSummary d.nSeats) :=
+  load_dump_blt d h cls vs
 
-/-- **A returned ballot names candidates of the returned list** — in the own format and in BLT mode, whatever the header
+/-- **A returned ballot names candidates of the returned list** — in the own formats (unordered and ordered) and in BLT mode, whatever the header
     declares (since f06b201: a header with candidate lines followed by BLT content used to return the header's candidate
     list with ballots for the people of the BLT content). -/
-theorem stv_loaded_indices_valid (hs : List HLine) (vs : List VLine) (bl : List Blt.Line)
-    (r : Doc Rat × List (String × Bool) × Summary) (h : loadStv hs vs bl = .ok r) :
+theorem stv_loaded_indices_valid (cls : String → OItem) (hs : List HLine) (vs : List VLine) (bl : List Blt.Line)
+    (r : Doc Rat × List (String × Bool) × Summary) (h : loadStv cls hs vs bl = .ok r) :
     ∀ b ∈ r.1.ballots, ∀ i ∈ b.1, i < r.2.1.length :=
-  loadStv_valid hs vs bl r h
+  loadStv_valid cls hs vs bl r h
 
 /-- `candidate=x Ann / method=blt / ballots=blt / 1 1 / 2 1 0 / 0`: the candidate of the BLT content ("1") is returned
     with the ballot that names it; Ann is dropped -/
 theorem stv_blt_mode_header_candidates :
-    loadStv [.cand false "x" "Ann", .other "method" (SVal.word "blt"), .ballotsBlt] []
+    loadStv (fun _ => .bad) [.cand false "x" "Ann", .other "method" (SVal.word "blt"), .ballotsBlt] []
         [.toks [.nat 1, .nat 1], .toks [.nat 2, .nat 1, .nat 0], .toks [.nat 0]]
       = .ok ({ cands := [("1", false, "")], ballots := [([0], 2)] }, [("1", false)], bltSummary 1) := by
   decide +kernel
 
 /-- a ballot listed twice in the own format: `1.5X a` and `1/2X a` add up to 2 (TypeError before 134a849) -/
 theorem stv_repeated_ballot_exact :
-    loadStv [.other "method" (SVal.word "BC"), .other "quota" (SVal.word "droop"), .cand false "a" "A", .ballotsN 2]
+    loadStv (fun _ => .bad) [.other "method" (SVal.word "BC"), .other "quota" (SVal.word "droop"), .cand false "a" "A", .ballotsN 2]
         [.items (.mult (3/2)) ["a"], .items (.mult (1/2)) ["a"], .endLine] []
       = .ok ({ cands := [("A", false, "")], ballots := [([0], 2)] }, [("A", false)],
              { title := none, seats := none, quota := Quota.name "droop", mandatory := false, random := none }) := by
@@ -320,35 +322,139 @@ theorem stv_dump_refuses_negative (sys : Sys) (arg : Option Nat) (namesOK : Bool
     same settings -/
 theorem stv_header_roundtrip (sd : SysDoc) (hs : wfSys sd = true) :
     ∃ ls c, dumpSys sd.toSys = .ok ls ∧
-      collect (ls ++ (match sd.seatsArg with | some n => [("seats", SVal.num n)] | none => [])) {} = .ok c ∧
+      collect (ls ++ argLines sd.seatsArg) {} = .ok c ∧
       createSystem c = .ok sd.summary :=
   sys_rt sd hs
 
-/-- **Parse error or data** (the full statement for the STV reader: own unordered format and BLT mode).  On ANY token
-    lines — header, ballots, BLT content — `load_lines` returns the election, or raises STVParseError, or
-    NotImplementedError for a `method=` other than BC / GPCA2000 / blt (a declared refusal of a well-formed file), or
-    meets the one construct outside this model (`order=`).  No other exception is possible. -/
-theorem stv_parse_total (hs : List HLine) (vs : List VLine) (bl : List Blt.Line) :
-    (∃ r, loadStv hs vs bl = .ok r) ∨ loadStv hs vs bl = .error Err.parseError
-      ∨ loadStv hs vs bl = .error Err.notImplemented ∨ loadStv hs vs bl = .error StvFile.unmodelled := by
-  cases h : loadStv hs vs bl with
+/-! ### the system header for ARBITRARY evaluator trees
+
+  A system handed to `dump_lines` is a chain of VotingSystem / FixedSeatCount / TieBreaking wrappers, in any order and
+  number, around a transferable-vote evaluator or around anything else (`Sys`).  Read off the tree (no writer, no reader
+  involved): `sysRefused` — a title the form cannot carry, a tie-breaker or converter `_dump_tiebreaker` does not know, a
+  retainer / elimination step / transferer / named quota `_dump_tveval` does not support; `sysReadable` — no setting
+  twice and a transferable-vote evaluator with a named quota at the bottom; `lossy` — a setting no line stands for
+  (TieBreaking subsetter, Sortitor without seed, accept_quota_equal=False, Distributor class). -/
+
+/-- **What `_dump_system` refuses**: it raises NotSupportedInSTV exactly for the trees `sysRefused` describes; for all
+    others it writes the lines `linesOf`. -/
+theorem stv_sys_dump_refuses_iff (sys : Sys) :
+    (dumpSys sys = .error notSupported ↔ sysRefused sys = true)
+    ∧ (dumpSys sys = .ok (linesOf sys) ↔ sysRefused sys = false) := by
+  rw [dumpSys_spec]
+  cases h : sysRefused sys <;> simp
+
+/-- **Every system falls in exactly one of three classes**, decided by the tree alone: refused at save; written to a
+    file the reader refuses with STVParseError (a setting twice — e.g. FixedSeatCount together with the `n_seats`
+    argument —, an evaluator other than a transferable-vote one, for which NOTHING is written, a quota function without
+    a name); written to a file that reloads to the settings `summaryOf` reads off the tree. -/
+theorem stv_sys_classification (sys : Sys) (arg : Option Nat) :
+    (sysRefused sys = true ∧ reloadSys sys arg = .error notSupported)
+    ∨ (sysRefused sys = false ∧ sysReadable sys arg = false ∧ reloadSys sys arg = .error Err.parseError)
+    ∨ (sysRefused sys = false ∧ sysReadable sys arg = true ∧ reloadSys sys arg = .ok (summaryOf sys arg)) := by
+  cases h : sysRefused sys with
+  | true => exact Or.inl ⟨rfl, (reloadSys_refused sys arg h).2⟩
+  | false =>
+    cases hr : sysReadable sys arg with
+    | false => exact Or.inr (Or.inl ⟨rfl, rfl, reloadSys_unreadable sys arg h hr⟩)
+    | true => exact Or.inr (Or.inr ⟨rfl, rfl, reloadSys_readable sys arg h hr⟩)
+
+/-- **Round trip for every tree that is written completely** (not refused, readable, nothing lost — `sysComplete`): the
+    whole file — system header, candidates, ballots — reloads to the same settings, candidates and ballots.  This
+    extends `stv_roundtrip` from the canonical shape to wrappers in any order, titles of any text the form carries,
+    bare or converted tie-breakers. -/
+theorem stv_roundtrip_complete_system (sys : Sys) (arg : Option Nat) (hc : sysComplete sys arg = true)
+    (d : Doc Weight) (h : wfStv d = true) (cls : String → OItem) (bl : List Blt.Line) :
+    (∃ hv, dumpStv sys arg true d = .ok hv ∧
+      loadStv cls hv.1 hv.2 bl = .ok (eraseDoc d, d.cands.map (fun c => (c.1, c.2.1)), summaryOf sys arg))
+    ∧ Faithful sys arg (summaryOf sys arg) := by
+  simp only [sysComplete, Bool.and_eq_true, Bool.not_eq_true'] at hc
+  obtain ⟨⟨h1, h2⟩, h3⟩ := hc
+  exact ⟨load_dump_sys sys arg h1 h2 d h cls bl, rfl, h3⟩
+
+/-- **For every other tree the dump refuses, or the reload fails, or the reloaded system has lost a setting.** -/
+theorem stv_sys_incomplete (sys : Sys) (arg : Option Nat) (hc : sysComplete sys arg = false) :
+    reloadSys sys arg = .error notSupported ∨ reloadSys sys arg = .error Err.parseError
+      ∨ ∃ s, reloadSys sys arg = .ok s ∧ ¬ Faithful sys arg s := by
+  rcases stv_sys_classification sys arg with ⟨_, h⟩ | ⟨_, _, h⟩ | ⟨h1, h2, h⟩
+  · exact Or.inl h
+  · exact Or.inr (Or.inl h)
+  · refine Or.inr (Or.inr ⟨_, h, ?_⟩)
+    intro hf
+    simp [sysComplete, h1, h2, hf.2] at hc
+
+def tvDroop : Sys := .tv true true true (some "droop") false
+
+/-- **Witnesses** of the files the writer produces without complaint and the reader cannot take back unchanged:
+    `VotingSystem('T', Plurality())` → `title=T` alone, no `method=` → STVParseError;
+    a quota function without a name (or `None`) → no `quota=` → STVParseError;
+    `FixedSeatCount(…, 2)` with `n_seats=3` → `seats=` twice → STVParseError;
+    `TieBreaking(…, Sortitor())` without seed → nothing written, the tie-breaker is gone;
+    `accept_quota_equal=False`, a TieBreaking subsetter, a TransferableVoteDistributor → written as if default. -/
+theorem stv_sys_witnesses :
+    reloadSys (.voting (some (SVal.word "T", true)) .other) none = .error Err.parseError
+    ∧ reloadSys (.tv true true true none false) none = .error Err.parseError
+    ∧ reloadSys (.fixed 2 tvDroop) (some 3) = .error Err.parseError
+    ∧ (reloadSys (.tie tvDroop (.sortitor none)) none = reloadSys tvDroop none ∧ lossy (.tie tvDroop (.sortitor none)) = true)
+    ∧ (reloadSys (.tv true true true (some "droop") false false true) none = reloadSys tvDroop none
+        ∧ lossy (.tv true true true (some "droop") false false true) = true)
+    ∧ (reloadSys (.tie tvDroop .order false) none = reloadSys (.tie tvDroop .order) none
+        ∧ lossy (.tie tvDroop .order false) = true)
+    ∧ (reloadSys (.tv true true true (some "droop") false true false) none = reloadSys tvDroop none
+        ∧ lossy (.tv true true true (some "droop") false true false) = true)
+    ∧ reloadSys tvDroop none = .ok { title := none, seats := none, quota := Quota.name "droop", mandatory := false, random := none } := by
+  refine ⟨by decide +kernel, by decide +kernel, by decide +kernel, ⟨by decide +kernel, by decide +kernel⟩,
+    ⟨by decide +kernel, by decide +kernel⟩, ⟨by decide +kernel, by decide +kernel⟩, ⟨by decide +kernel, by decide +kernel⟩,
+    by decide +kernel⟩
+
+/-- **Parse error or data** (the full statement for the STV reader: unordered and ordered own format, BLT mode).  On
+    ANY token lines — header, ballots, BLT content — and whatever the items of ordered ballot lines look like (`cls`),
+    `load_lines` returns the election, or raises STVParseError, or NotImplementedError for a `method=` other than
+    BC / GPCA2000 / blt (a declared refusal of a well-formed file).  No other exception is possible. -/
+theorem stv_parse_total (cls : String → OItem) (hs : List HLine) (vs : List VLine) (bl : List Blt.Line) :
+    (∃ r, loadStv cls hs vs bl = .ok r) ∨ loadStv cls hs vs bl = .error Err.parseError
+      ∨ loadStv cls hs vs bl = .error Err.notImplemented := by
+  cases h : loadStv cls hs vs bl with
   | ok r => exact Or.inl ⟨r, rfl⟩
   | error e =>
-    rcases loadStv_err hs vs bl e h with rfl | rfl | rfl
+    rcases loadStv_err cls hs vs bl e h with rfl | rfl
     · exact Or.inr (Or.inl rfl)
-    · exact Or.inr (Or.inr (Or.inl rfl))
-    · exact Or.inr (Or.inr (Or.inr rfl))
+    · exact Or.inr (Or.inr rfl)
+
+/-- how `isdecimal()` / `int()` / `== '-'` classify the items of the examples below -/
+def exCls (s : String) : OItem :=
+  if s = "1" then .rank 1 else if s = "2" then .rank 2 else if s = "3" then .rank 3 else if s = "-" then .dash else .bad
+
+def exOrdHdr : List HLine :=
+  [.other "method" (SVal.word "BC"), .other "quota" (SVal.word "droop"), .cand false "a" "A", .cand false "b" "B",
+   .cand true "c" "C", .order ["c", "a", "b", "c"], .ballotsN 2]
+
+/-- **The ordered ballot format**: after `order=c a b c` (a repeated nickname keeps its first place) the line `2 1 -` ranks
+    candidate a first and c second, `3X - - 1` gives b three votes; the candidate list keeps the order of the candidate
+    lines.  Refused with STVParseError: an unknown nickname in `order=`, ranks that are not 1..k (`1 3 -`, `1 1 -`), more
+    numbers than candidates (`1 2 3 1`), an item that is neither a number nor `-`. -/
+theorem stv_ordered_format :
+    loadStv exCls exOrdHdr [.items (.word "2") ["1", "-"], .items (.mult 3) ["-", "-", "1"], .endLine] []
+      = .ok ({ cands := [("A", false, ""), ("B", false, ""), ("C", true, "")], ballots := [([0, 2], 1), ([1], 3)] },
+             [("A", false), ("B", false), ("C", true)],
+             { title := none, seats := none, quota := Quota.name "droop", mandatory := false, random := none })
+    ∧ loadStv exCls [.other "method" (SVal.word "BC"), .other "quota" (SVal.word "droop"), .cand false "a" "A", .order ["b"],
+                     .ballotsN 0] [.endLine] [] = .error Err.parseError
+    ∧ loadStv exCls exOrdHdr [.items (.word "1") ["3", "-"], .blank, .endLine] [] = .error Err.parseError
+    ∧ loadStv exCls exOrdHdr [.items (.word "1") ["1", "-"], .blank, .endLine] [] = .error Err.parseError
+    ∧ loadStv exCls exOrdHdr [.items (.word "1") ["2", "3", "1"], .blank, .endLine] [] = .error Err.parseError
+    ∧ loadStv exCls exOrdHdr [.items (.word "1") ["x"], .blank, .endLine] [] = .error Err.parseError := by
+  refine ⟨by decide +kernel, by decide +kernel, by decide +kernel, by decide +kernel, by decide +kernel, by decide +kernel⟩
 
 /-- the header lines that raised TypeError / AttributeError / IndexError / ValueError before: all STVParseError now
     (`foo=bar`; `random=1` twice; `quota=mandatory` twice; `candidate=a`) -/
-theorem stv_former_foreign_errors :
-    loadStv [.other "method" (SVal.word "BC"), .other "quota" (SVal.word "droop"), .other "foo" (SVal.word "bar"), .ballotsN 0] [.endLine] []
+theorem stv_former_foreign_errors (cls : String → OItem) :
+    loadStv cls [.other "method" (SVal.word "BC"), .other "quota" (SVal.word "droop"), .other "foo" (SVal.word "bar"), .ballotsN 0] [.endLine] []
         = .error Err.parseError
-    ∧ loadStv [.other "method" (SVal.word "BC"), .other "quota" (SVal.word "droop"), .other "random" (SVal.num 1),
+    ∧ loadStv cls [.other "method" (SVal.word "BC"), .other "quota" (SVal.word "droop"), .other "random" (SVal.num 1),
                .other "random" (SVal.num 2), .ballotsN 0] [.endLine] [] = .error Err.parseError
-    ∧ loadStv [.other "method" (SVal.word "BC"), .other "quota" (SVal.word "mandatory"), .other "quota" (SVal.word "mandatory"),
+    ∧ loadStv cls [.other "method" (SVal.word "BC"), .other "quota" (SVal.word "mandatory"), .other "quota" (SVal.word "mandatory"),
                .ballotsN 0] [.endLine] [] = .error Err.parseError
-    ∧ loadStv [.other "method" (SVal.word "BC"), .other "quota" (SVal.word "droop"), .candBad, .ballotsN 0] [.endLine] []
+    ∧ loadStv cls [.other "method" (SVal.word "BC"), .other "quota" (SVal.word "droop"), .candBad, .ballotsN 0] [.endLine] []
         = .error Err.parseError :=
   ⟨rfl, rfl, rfl, rfl⟩
 
@@ -361,8 +467,8 @@ theorem stv_end_and_empty_ballot_reload :
     let d : Doc Weight := { cands := [("Ed N. Dav", false, "end"), ("Bo", false, "b")],
                             ballots := [([0], ⟨1, true⟩), ([], ⟨1, true⟩), ([1], ⟨2, true⟩)] }
     ∃ hv, dumpStv sysW.toSys none true d = .ok hv ∧
-      loadStv hv.1 hv.2 [] = .ok (eraseDoc d, [("Ed N. Dav", false), ("Bo", false)], sysW.summary) :=
-  load_dump sysW (by decide +kernel) _ (by decide +kernel) []
+      loadStv (fun _ => .bad) hv.1 hv.2 [] = .ok (eraseDoc d, [("Ed N. Dav", false), ("Bo", false)], sysW.summary) :=
+  load_dump sysW (by decide +kernel) _ (by decide +kernel) _ []
 
 /-- non-vacuity: duplicate initials ("Ann Berg", "Al Brown" → ordinal nicknames a, b, c), a withdrawn candidate,
     Fraction and Decimal multipliers, empty ballots, a weight-1 ballot; a system with title, seats argument, mandatory
